@@ -46,6 +46,14 @@ CHECKS = {
          "compute_merkle_set_root, MerkleSet::from_leafs().get_root() and a reference implementation written from the definition agree under permutation and duplication; generate_proof/validate_merkle_proof are complete for members and non-members sharing k-bit prefixes with members; soundness is attacked with structural rewrites of honest proofs (the model decides which keep the root) and with exhaustive enumeration of all proof trees over small alphabets/depths validated against every honest subset root: validate_merkle_proof must return Err or the true membership. Exhaustive on the enumerated spaces, sampled elsewhere.",
          "Soundness over all byte strings can be refuted, not proved; the bounds explored are in the evidence.",
          "DESIGN.md section 4, C12"),
+ "C15": ("proptest (model-based cache histories) + exhaustive enumeration of thread interleavings through feature-gated yield points; secret-key model of the verdict",
+         "verify, aggregate_verify, aggregate_verify_gt (over harness-computed pairings) and BlsCache::aggregate_verify (cold/warm) are compared with a model that knows every secret key (valid iff no key is infinity and the signature equals the aggregate the harness computed) on pair lists with repeated keys/messages, empty messages, the infinity key, tampered/identity/off-subgroup signatures; sequential histories of Verify/Update/Evict on caches of capacity 1..6 check len <= capacity and history-independence; concurrent verifications are executed under a controller that owns the schedule (yield point before every BlsCache lock acquisition, feature chia-bls/verif-hooks): all interleavings of 2 threads x <=2 pairs are enumerated exhaustively, larger configurations sampled.",
+         "Interleavings are explored at lock granularity (what the statement names); races inside the Mutex or in blst are out of reach. The hook is compiled only with the feature, which no /repo workspace member enables.",
+         "DESIGN.md section 4, C15"),
+ "C16": ("proptest; round-trip, unique-encoding and homomorphism laws with an independent subgroup-order test",
+         "Public keys, signatures, secret keys and GT elements round-trip with unique encodings (also through Streamable); checked parsing accepts only infinity or points of order r (decided independently by (r-1)P + P = 0) and is a subset of unchecked parsing, on perturbed encodings (flag bits, stray infinity bits, x +- field modulus, random on-curve x, scalars around the group order); unhardened derivation and synthetic-key derivation commute with taking the public key along whole paths incl. boundary indexes; key addition is a homomorphism; signing is deterministic.",
+         "The commutation law cannot see a synthetic offset that is wrong on both routes (both call the same private function); agreement with the standard definition is measured as a label, asserted only with VERIF_C16_ASSERT_DEFINITION=1.",
+         "DESIGN.md section 4, C16"),
  "C17": ("proptest (trees and cache histories) + exhaustive small-atom sweep against a recursive reference hash",
          "tree_hash, tree_hash_cached (fresh cache, reused cache, after the visit_tree pre-pass, across histories of up to 8 trees sharing sub-trees in one allocator), tree_hash_from_bytes on plain and back-reference serializations, the TreeHasher encoder, curry_tree_hash and (through fast_forward_singleton) curry_and_treehash are all compared with the harness's reference sha256 tree hash on deep chains (50k), wide lists, layered DAGs and every allocator representation of small atoms; the 24 precomputed small-atom hashes are recomputed exhaustively.",
          "The reference hash is the harness's own bottom-up implementation over an arena; clvmr is trusted for serialization of inputs.",
@@ -54,6 +62,10 @@ CHECKS = {
          "Histories of up to 60 operations (insert at auto/root/leaf locations incl. free and out-of-range indexes, upsert, delete, batch insert with fresh and duplicate entries, lazy hash calculation, reload, proofs) over small and large key spaces; after every step the blob's content equals the model (updated iff the operation returned Ok), check_integrity passes, a failed operation leaves content/root unchanged, reload is equivalent, the root equals the harness's bottom-up recomputation and every key has a valid inclusion proof ending in that root. Known genuine defects are keyed on oracle signatures and excluded by construction so the search continues behind them.",
          "The model encodes no failure policy: which operations must succeed is not asserted (only non-vacuity floors).",
          "DESIGN.md section 4, C18"),
+ "C19": ("proptest; re-execution of rewritten singleton spends, metamorphic pairs for fingerprint injectivity, independent scan for eligibility",
+         "Genuine singleton spends (real SINGLETON_TOP_LAYER_V1_1 curried, (q . conditions) inner puzzles, consistent lineage; plus the two recorded spends) are fast-forwarded onto generated targets: whenever the rewrite succeeds the new solution may differ from the old one only at the three lineage/amount atoms, must run as a spend of the new coin through run_spendbundle and create the same coins; 23 kinds of single-field corruption must be refused. Pairs of condition lists for the same coin differing by one atom, an atom-boundary shift, a hint shape, a memo, a REMARK argument, a swap or an integer encoding: equal dedup fingerprints (both accepted and eligible) imply equal parsed conditions and summaries. ELIGIBLE_FOR_DEDUP implies no AGG_SIG/message condition and created value >= coin amount, by an independent scan.",
+         "That genuine inputs are in fact rewritten is a non-vacuity floor, not an assertion. Injectivity over all pairs can be refuted, not proved.",
+         "DESIGN.md section 4, C19"),
  "C20": ("proptest through an embedded CPython interpreter (pyo3): JSON-dict round-trip plus single-node corruptions that must raise",
          "For generated values of 178 root types (every #[streamable] struct of chia-protocol read from the sources at build time, conditions, datalayer records, BLS elements, all integer widths, Option/Vec/tuple/array combinators) from_json_dict(to_json_dict(v)) must reproduce the value, its bytes and its hash; 12 single-node edits per case are classified as invalid (deleted key, None for non-optional, out-of-range/typed-wrong integers, bad hex, wrong fixed lengths, wrong tuple/array arity: must raise) or valid (must be accepted and reflected exactly).",
          "Runs the Rust callees of the Python bindings through an embedded interpreter; the cdylib wrappers in wheel/src/api.rs are not linked. Edits whose validity the statement does not fix (missing 0x prefix, deleted key of an Option field) are counted but not asserted.",
